@@ -154,6 +154,35 @@ macro_rules! width_ops {
     };
 }
 
+/// boxed operand of n limbs cut from the wide boxed secrets (2048 bits each)
+fn bn(x: &BoxedUint, n: usize, rot: usize) -> BoxedUint { let w = x.as_words(); BoxedUint::from_words((0..n).map(|k| w[(k + rot) % w.len()])) }
+fn bpubmod(n: usize) -> Odd<BoxedUint> { let mut w = vec![u64::MAX; n]; w[0] -= 188; Odd::new(BoxedUint::from_words(w)).unwrap() }
+
+/// the core boxed operation set at one more precision (the registry above is 256 bits)
+macro_rules! boxed_width_ops {
+    ($v:ident, $N:literal, $tag:literal) => {
+        $v.push(op!(concat!("boxed", $tag, ".add_sub_mul"), true, true, |i| { let (a, b) = (bn(&i.bwa, $N, 0), bn(&i.bwb, $N, 3));
+            let (r, c) = a.adc(&b, Limb::ONE); let (d, bw) = a.sbb(&b, Limb::ZERO);
+            foldb(&a.wrapping_add(&b)) ^ foldb(&r) ^ c.0 ^ foldb(&d) ^ bw.0 ^ foldb(&a.wrapping_sub(&b)) ^ foldb(&a.mul(&b)) ^ foldb(&a.wrapping_mul(&b)) ^ foldb(&a.square()) ^ foldb(&a.wrapping_neg())
+                ^ foldc(a.checked_add(&b).is_some()) ^ foldc(a.checked_sub(&b).is_some()) ^ foldc(a.checked_mul(&b).is_some()) }));
+        $v.push(op!(concat!("boxed", $tag, ".cmp_select"), true, true, |i| { let (a, b) = (bn(&i.bwa, $N, 0), bn(&i.bwb, $N, 3));
+            let c = a.ct_lt(&b); let mut t = a.clone(); t.ct_assign(&b, c); let (mut u1, mut u2) = (a.clone(), b.clone()); BoxedUint::ct_swap(&mut u1, &mut u2, c);
+            foldc(a.ct_eq(&b)) ^ foldc(c) << 1 ^ foldc(a.ct_gt(&b)) << 2 ^ ((a.cmp(&b) as i8 as u64) << 3) ^ foldc(a.is_zero()) << 12 ^ foldb(&BoxedUint::ct_select(&a, &b, c)) ^ foldb(&t) ^ foldb(&u1) ^ foldb(&u2).rotate_left(7) }));
+        $v.push(op!(concat!("boxed", $tag, ".shift_bits(secret amount)"), true, true, |i| { let (a, b) = (bn(&i.bwa, $N, 0), bn(&i.bwb, $N, 3));
+            let s = (b.as_words()[0] % (64 * $N)) as u32; let s2 = (b.as_words()[0] % (160 * $N)) as u32;
+            foldb(&a.overflowing_shl(s2).0) ^ foldb(&a.overflowing_shr(s2).0) ^ foldb(&a.wrapping_shl(s2)) ^ foldb(&a.wrapping_shr(s2)) ^ foldb(&(&a << s)) ^ foldb(&(&a >> s))
+                ^ (a.bits() ^ a.leading_zeros() << 8 ^ a.trailing_zeros() << 16 ^ a.trailing_ones() << 24) as u64 ^ foldc(a.bit(s)) << 40 }));
+        $v.push(op!(concat!("boxed", $tag, ".mod_arith(public modulus)"), true, true, |i| { let (a, b) = (bn(&i.bwa, $N, 0).shr_vartime(1).unwrap(), bn(&i.bwb, $N, 3).shr_vartime(1).unwrap()); let p = bpubmod($N);
+            foldb(&a.add_mod(&b, &p)) ^ foldb(&a.sub_mod(&b, &p)) ^ foldb(&a.double_mod(&p)) ^ foldb(&a.mul_mod(&b, p.as_nz_ref())) ^ foldb(&a.rem(p.as_nz_ref())) }));
+        $v.push(op!(concat!("boxedmonty", $tag, ".mul_square_addsub(public modulus)"), true, true, |i| { let (a, b) = (bn(&i.bwa, $N, 0).shr_vartime(1).unwrap(), bn(&i.bwb, $N, 3).shr_vartime(1).unwrap()); let params = BoxedMontyParams::new_vartime(bpubmod($N));
+            let (x, y) = (BoxedMontyForm::from_montgomery(a, params.clone()), BoxedMontyForm::from_montgomery(b, params));
+            foldb((&x * &y).as_montgomery()) ^ foldb(x.square().as_montgomery()) ^ foldb((&x + &y).as_montgomery()) ^ foldb((&x - &y).as_montgomery()) ^ foldb(x.double().as_montgomery()) ^ foldb(x.div_by_2().as_montgomery()) ^ foldb(&x.retrieve()) }));
+        $v.push(op!(concat!("boxedmonty", $tag, ".pow(secret exponent, public modulus)"), true, true, |i| { let (a, b) = (bn(&i.bwa, $N, 0).shr_vartime(1).unwrap(), bn(&i.bwb, 1, 3)); let params = BoxedMontyParams::new_vartime(bpubmod($N));
+            let x = BoxedMontyForm::from_montgomery(a, params);
+            foldb(x.pow_bounded_exp(&b, 12).as_montgomery()) }));
+    };
+}
+
 fn registry() -> Vec<Op> {
     let mut v = vec![
         // --- arithmetic
@@ -381,6 +410,7 @@ fn registry() -> Vec<Op> {
         op!("boxedmonty.invert", true, true, |i| { let p = BoxedMontyParams::new_vartime(oddbm(i)); let x = BoxedMontyForm::new(i.ba.clone(), p.clone()); { let _ = &p; foldc(x.invert().is_some()) } }),
     ];
     width_ops!(v, 1, "64"); width_ops!(v, 2, "128"); width_ops!(v, 3, "192"); width_ops!(v, 6, "384"); width_ops!(v, 8, "512"); width_ops!(v, 16, "1024w");
+    boxed_width_ops!(v, 1, "64"); boxed_width_ops!(v, 2, "128"); boxed_width_ops!(v, 3, "192"); boxed_width_ops!(v, 6, "384"); boxed_width_ops!(v, 8, "512"); boxed_width_ops!(v, 17, "1088");
     v
 }
 
